@@ -54,7 +54,7 @@ def mask(sql, choices):
 
 @st.composite
 def cases(draw, depth):
-    kind = draw(st.sampled_from(("masked", "masked", "masked", "star", "using", "aliasref", "ctecols", "ambiguous")))
+    kind = draw(st.sampled_from(("masked", "masked", "masked", "star", "using", "using3", "aliasref", "ctecols", "ambiguous")))
     d = draw(st.sampled_from(DIALECTS))
     tables = draw(queries.tables())
     feats = [kind]
@@ -90,6 +90,27 @@ def cases(draw, depth):
         if draw(st.booleans()):
             sql += f" WHERE {key} IS NOT NULL"
         return {"sql": sql, "tables": tables, "dialect": d, "kind": kind, "features": feats, "ordered": False, "bare": 1}
+    if kind == "using3":
+        # USING join plus a further source that is NOT part of it (possibly with a column of the same name as the key), stars
+        # over each source: the merged COALESCE(...) column belongs to the USING pair only. DuckDB judges names and rows.
+        key = draw(st.sampled_from(("a", "b")))
+        pair = {"a": ("t", "u"), "b": ("t", "v")}[key]
+        if draw(st.booleans()):
+            pair = (pair[1], pair[0])
+        t3 = draw(st.sampled_from(("t", "u", "v")))
+        side = draw(st.sampled_from(("JOIN", "LEFT JOIN", "RIGHT JOIN", "FULL JOIN")))
+        c1 = draw(st.sampled_from([c for c in COLS[pair[0]] if c != key and c in "abdf"] or [COLS[pair[0]][1]]))
+        c3 = draw(st.sampled_from([c for c in COLS[t3] if c in "abdf"]))
+        third = draw(st.sampled_from((f"JOIN {t3} AS x3 ON x1.{c1} = x3.{c3}", f"LEFT JOIN {t3} AS x3 ON x1.{c1} = x3.{c3}", f"CROSS JOIN {t3} AS x3")))
+        sel = draw(st.sampled_from(("*", "x3.*", "x1.*", "x2.*", f"x3.*, {key} AS k", f"{key} AS k, x3.{COLS[t3][0]} AS o1", "x1.*, x3.*", f"x2.*, x3.{COLS[t3][1]} AS o1")))
+        sql = f"SELECT {sel} FROM {pair[0]} AS x1 {side} {pair[1]} AS x2 USING ({key}) {third}"
+        # known finding C10-qualified-star-using-coalesce: x.* over a USING participant yields COALESCE(...) for the key; only
+        # observable when that side can be null-extended, which is the region excluded (and counted) here
+        null_extended = {"JOIN": (), "LEFT JOIN": ("x2",), "RIGHT JOIN": ("x1",), "FULL JOIN": ("x1", "x2")}[side]
+        if any(f"{x}.*" in sel for x in null_extended):
+            feats.append("excluded:qualified-star-null-extended-using-side")
+        feats += ["star"] if "*" in sel else []
+        return {"sql": sql, "tables": tables, "dialect": "duckdb" if draw(st.integers(0, 3)) else d, "kind": kind, "features": feats, "ordered": False, "bare": 1}
     if kind == "aliasref":
         c0, c1 = COLS[t1][0], COLS[t1][1]
         where = draw(st.sampled_from(("", f" WHERE {c0} > 0", " WHERE k > 1")))
@@ -189,6 +210,10 @@ def check_case(case, res=None):
                     names1, rows1 = db.run(q1.sql("duckdb"))
                     if [n.lower() for n in names1] != [n.lower() for n in duck[0]]:
                         fails.append((f"qualified-column-names|{case['kind']}", f"{sql!r} -> {q1.sql('duckdb')!r}: {duck[0]} vs {names1}"))
+                    elif "excluded:qualified-star-null-extended-using-side" in case.get("features", ()) and not case.get("strict"):
+                        # known finding: only the ROW comparison is waived for this region; names, idempotence, structure stay
+                        if res is not None:
+                            res.excluded["C10-qualified-star-using-coalesce"] += 1
                     elif not engines.same_rows(duck[1], rows1, case["ordered"]):
                         fails.append((f"qualified-rows|{case['kind']}", f"{sql!r} -> {q1.sql('duckdb')!r}; tables {tables}: {engines.show(duck[1])} vs {engines.show(rows1)}"))
                 except engines.EngineError as e:
@@ -225,7 +250,7 @@ def check_case(case, res=None):
         if sel is not None and col.table not in _visible_sources(sel):
             fails.append((f"column-names-invisible-source|{case['kind']}", f"{d or 'base'} {sql!r} -> {q1.sql(dd)!r}: {col.sql()} (visible: {sorted(_visible_sources(sel))})"))
             break
-    if isinstance(q1, exp.Query) and not case.get("expect_star"):
+    if isinstance(q1, exp.Query) and not case.get("expect_star") and "*" not in names_before:
         if [n.lower() for n in q1.named_selects] != [n.lower() for n in names_before]:
             fails.append((f"output-names-changed|{case['kind']}", f"{d or 'base'} {sql!r}: {names_before} -> {q1.named_selects}"))
     if case.get("expect_star") and isinstance(q1, exp.Query):
@@ -324,4 +349,4 @@ def replay(case):
     return check_any(case, None)
 
 
-MIN_CLASSES = {"quick": {"bare-columns": 1000, "kind:star": 300, "kind:using": 300, "duckdb-judged": 1500, "ident-law": 4000, "qualify-raised": 100}}
+MIN_CLASSES = {"quick": {"bare-columns": 1000, "kind:star": 300, "kind:using": 300, "kind:using3": 300, "duckdb-judged": 1500, "ident-law": 4000, "qualify-raised": 100}}
